@@ -3,6 +3,7 @@
    [listing c a] : hashes of the transactions saved and not removed that have a as issuer or receiver. *)
 From Coq Require Import List Arith NArith Bool Lia.
 From Verif Require Import Cache CacheP.
+From Verif Require LockSites.
 Import ListNotations.
 
 (* For EVERY sequence of save / remove / read calls (each atomic: they run under one mutex), for every
@@ -52,3 +53,11 @@ Theorem C17_interleaved_rmw_refuted :
   run_rmw 1 2 [AGet true; ASet true; AGet false; ASet false] = [1%N; 2%N].
 Proof. exact interleaved_rmw_loses_entry. Qed.
 Print Assumptions C17_interleaved_rmw_refuted.
+
+(* The premise "each operation is atomic": in the source as it is now, every call that Save / Remove / ReadTransactions
+   (and whatever they call) make on the store happens with the cache object's lock held exclusively
+   (Gen/LockSites.v, regenerated on every run; at least the three operations' own calls are listed). *)
+Theorem C17_operations_run_under_the_lock :
+  forallb (fun s => Nat.eqb (snd s) 2) LockSites.cache_store_sites && Nat.leb 6 (length LockSites.cache_store_sites) = true.
+Proof. vm_compute. reflexivity. Qed.
+Print Assumptions C17_operations_run_under_the_lock.
